@@ -30,9 +30,58 @@ def _linear(t, atoms):
     return None
 
 
+_NEG = {"==": "!=", "!=": "==", "<": ">=", ">=": "<", ">": "<=", "<=": ">", "is": "is not", "is not": "is", "in": "not in", "not in": "in"}
+
+
+def bool_norm(t, neg=False):
+    """Boolean term with conditional expressions that have a constant False / True arm written as conjunctions /
+    disjunctions, negations pushed into comparisons, nested conjunctions flattened."""
+    if not isinstance(t, tuple) or not t:
+        return t
+    if t[0] == "unop" and t[1] == "not":
+        return bool_norm(t[2], not neg)
+    if t[0] == "cmp" and len(t[1]) == 1:
+        return ("cmp", (_NEG[t[1][0]],), t[2]) if neg and t[1][0] in _NEG else (("unop", "not", t) if neg else t)
+    if t[0] == "const" and isinstance(t[1], bool):
+        return ("const", (not t[1]) if neg else t[1])
+    if t[0] == "ifexp" and not neg:
+        c, a, b = t[1], t[2], t[3]
+        if a == ("const", False):
+            return bool_norm(("boolop", "and", (("unop", "not", c), b)))
+        if b == ("const", False):
+            return bool_norm(("boolop", "and", (c, a)))
+        if a == ("const", True):
+            return bool_norm(("boolop", "or", (c, b)))
+        if b == ("const", True):
+            return bool_norm(("boolop", "or", (("unop", "not", c), a)))
+        return t
+    if t[0] == "boolop":
+        op = t[1] if not neg else {"and": "or", "or": "and"}[t[1]]
+        parts = []
+        for v in t[2]:
+            n = bool_norm(v, neg)
+            if isinstance(n, tuple) and n and n[0] == "boolop" and n[1] == op:
+                parts.extend(n[2])
+            else:
+                parts.append(n)
+        if op == "and":
+            if ("const", False) in parts:
+                return ("const", False)
+            parts = [x for x in parts if x != ("const", True)]
+        else:
+            if ("const", True) in parts:
+                return ("const", True)
+            parts = [x for x in parts if x != ("const", False)]
+        if not parts:
+            return ("const", op == "and")
+        return parts[0] if len(parts) == 1 else ("boolop", op, tuple(parts))
+    return ("unop", "not", t) if neg else t
+
+
 def last_level_predicate(t, idx, count, flag, start=0):
     """Does boolean term t normalise to `idx == count - 1 + start and flag`?  (start: first value of the index, e.g.
     enumerate(..., start=1)).  Returns (ok, reason)."""
+    t = bool_norm(t)
     conj = list(t[2]) if t[0] == "boolop" and t[1] == "and" else [t]
     has_flag = any(c == flag for c in conj)
     eqs = [c for c in conj if c[0] == "cmp" and c[1] == ("==",)]
@@ -71,6 +120,7 @@ def sib_atomistic_level(repo, tier="quick"):
     rf = fl.calls_to("read_fragments:read_fragments")
     need(rf, "anchor vanished: read_fragment_strings no longer calls read_fragments", fi)
     strings, flagp = ("param", fi.positional_params[0]), ("param", fi.positional_params[1])
+    reader_false = []
     for call, nid, _ in rf:
         ct = fl.canon(call, nid)
         aa = dict(ct[4]).get("all_atom", ct[3][1] if len(ct[3]) > 1 else None)
@@ -93,6 +143,28 @@ def sib_atomistic_level(repo, tier="quick"):
                         sv = dict(ce[1]).get("start", ce[0][1] if len(ce[0]) > 1 else ("const", 0))
                         start = sv[1] if sv[0] == "const" and isinstance(sv[1], int) else None
             count = ("call", None, ("builtin", "len"), (strings,), ())
+            # the value the reader gets on this path: the conditions that lead to the call and the argument
+            lp = enclosing_loops(fi, nid)
+            conds = []
+            for test, pol, gid in guards_of(fi, nid):
+                if lp and gid == lp[0].id:
+                    continue
+                gt = fl.canon(test, gid)
+                conds.append(gt if pol else ("unop", "not", gt))
+            if conds:
+                aa = ("boolop", "and", tuple(conds) + (aa,))
+                for x in walk_term(aa):
+                    e = elem_of(x) if isinstance(x, tuple) and x and x[0] in ("sub",) else None
+                    if e and e[0] == "index" and e[1] == strings and idx is None:
+                        idx = x
+                        en = x[1][2] if x[1][0] == "iter" else None
+                        ce = is_call(en, "enumerate") if en is not None else None
+                        if ce:
+                            sv = dict(ce[1]).get("start", ce[0][1] if len(ce[0]) > 1 else ("const", 0))
+                            start = sv[1] if sv[0] == "const" and isinstance(sv[1], int) else None
+                if bool_norm(strip_sites(aa)) == ("const", False):
+                    reader_false.append(call)
+                    continue
             aa_n = strip_sites(aa)
             if idx is not None and start is None:
                 why = "the level index starts at a value the rule cannot read"
@@ -103,6 +175,9 @@ def sib_atomistic_level(repo, tier="quick"):
         (obs.append(ob_ok(oid, fi, call, construct="read_fragments(s, all_atom=(idx == len(strings) - 1 and last_all_atom))", instance="reader",
                           reason="only the last fragment level is read as atomistic, and only if last_all_atom")) if ok else
          obs.append(ob_fail(oid, fi, call, construct="read_fragments(..., all_atom=%s)" % (show(aa) if aa else "<default>"), instance="reader", reason=why)))
+    if reader_false and not any(o.instance == "reader" for o in obs):
+        obs.append(ob_fail(oid, fi, reader_false[0], construct="read_fragments(..., all_atom=<never true>)", instance="reader",
+                           reason="no path reads the last fragment level as atomistic"))
     # resolver side
     from .order import resolve_flag
     fi, ph, flag = resolve_flag(repo)
@@ -112,6 +187,7 @@ def sib_atomistic_level(repo, tier="quick"):
     need(gs, "rebuild_h_atoms in resolve() is not guarded by the all-atom flag", fi)
     test, pol, gid = gs[-1]
     t = fl.canon(test, gid)
+    t = fl.diamond(t, gid) or t
     idx, count, fl_attr = ("attr", SELF, "resolution_counter"), ("attr", SELF, "resolutions"), ("attr", SELF, "last_all_atom")
     ok, why = last_level_predicate(strip_sites(t), idx, count, fl_attr)
     (obs.append(ob_ok(oid, fi, test, construct="all_atom = (self.resolution_counter == self.resolutions - 1 and self.last_all_atom)", instance="resolver",
@@ -122,6 +198,7 @@ def sib_atomistic_level(repo, tier="quick"):
         for call, nid in ph.sites[lab]:
             ct = fl.canon(call, nid)
             a = dict(ct[4]).get("all_atom", ct[3][0] if ct[3] else None)
+            a = (fl.diamond(a, nid) or a) if a is not None else a
             (obs.append(ob_ok(oid, fi, call, construct="edges_from_bonding_descrpt(all_atom=all_atom)", instance="resolver:connect", reason="same predicate")) if a == t else
              obs.append(ob_fail(oid, fi, call, construct="edges_from_bonding_descrpt(all_atom=%s)" % (show(a) if a else "<default>"), instance="resolver:connect",
                                 reason="the connect phase does not receive the level's all-atom predicate")))
